@@ -10,7 +10,7 @@ def b64(k):
 
 
 def run(ck):
-    ck.prove("Properties_C15", THEOREMS)
+    ck.prove(["Properties_C15", "SrcRun5"], THEOREMS)   # SrcRun5: the translated whole-file runs (a stale translation concerns this property)
     exe = small_driver(ck)
     env = small_env(ck)
     big = ck.tier == "thorough"
@@ -138,6 +138,34 @@ def run(ck):
                 break
         if len(ck.cov["samples"]) < 4:
             ck.cov["samples"].append({"history": [k for _, k in ops], "results": [p[:30] for p in parts]})
+    # the library-level operations of the histories, in the same order in ONE process image of the TRANSLATED SOURCE (SrcRun5.src_history:
+    # the statics and the heap are carried from one operation to the next); each result must be what the implementation gives for
+    # the operation alone
+    hl, hmeta = [], {}
+    for h, ops in hist_ops.items():
+        api = [(i, f) for i, (f, kind) in enumerate(ops) if f[0] in ("enc", "dec", "ver") and sum(len(x) for x in f) < 3000]
+        if len(api) >= 2:
+            hl.append("s%d @S=%d hist %s" % (h, r.randrange(1 << 30), ";".join(",".join(f) for _, f in api[:8])))
+            hmeta[h] = api[:8]
+    hl = hl[:40 if big else 14]
+    sres = wv.run_lines([ck.model_driver(), "src"], hl, shards=wv.NCPU, env=env, timeout=1800) if hl else {}
+    sdiff = []
+    for h, api in hmeta.items():
+        got = sres.get("s%d" % h)
+        if got is None:
+            continue
+        parts = got.split(" ; ")
+        for j, (i, f) in enumerate(api):
+            alone = out.get("a%d_%d" % (h, i), "(no output)").split(" | ")[0]
+            mine = parts[j].strip() if j < len(parts) else "(history ended)"
+            ck.cov["operations_in_translated_histories"] = ck.cov.get("operations_in_translated_histories", 0) + 1
+            if mine != alone:
+                sdiff.append({"class": None, "history": [" ".join(x) for _, x in api], "position": j, "translated_source_in_history": mine[:400], "implementation_alone": alone[:400],
+                              "broken": "correspondence translated whole-file history vs implementation"})
+                break
+    ck.cov["disagreements_source_vs_impl"] = ck.cov.get("disagreements_source_vs_impl", 0) + len(sdiff)
+    if sdiff and not ck.violations:
+        ck.violation("an operation inside a history run on the translated source gives another result than the implementation alone (%d histories) but no failing history of the implementation was found" % len(sdiff), sdiff[0], found_input=False)
     ck.cov["distinct_nontrivial"] = len(distinct)
     ck.cov["histories"] = nhist
     return finish_proof(ck, rule="%d random histories of 3..8 operations in ONE process (library-level encrypt incl. multi-chunk and T up to 16, decrypt of garbage, verify with a bad tag, verify/decrypt of a valid file interleaved with verify/decrypt of a same-length copy whose body was changed; option-driven encrypt / decrypt / decrypt with wrong key / verify through get_v_opt; parses aborted inside a clustered option, failing parses, -V/-h) against the same operation alone in a freshly forked process; results and output bytes compared (option-driven encryption: status and length only, its IV seed is random). distinct = distinct (kind, position, short arguments)" % nhist,
